@@ -928,6 +928,9 @@ class Router:
             BasicHeader of the packet; used for remaining LT and RHL (Table 35).
         """
         try:
+            if len(packet) < 28:
+                raise DecodeError(
+                    f"SHB Extended Header too short: expected 28 bytes, got {len(packet)}")
             long_position_vector = LongPositionVector.decode(packet[0:24])
             packet = packet[24:]
             # Ignore Media Dependant Data
